@@ -184,10 +184,22 @@ def _capped_log(logs):
     return log
 
 
-def run_impl_model(model, files_text, limit, globals0):
+def _debug_split(logs, d):
+    """In debug mode the interpreter logs its own lines ("BareScript: ..."): they are not markers of the script - but the budget abort is not a failed
+    call, so none of them may report it as one."""
+    own = [m for m in logs if m[0] == 'log' and isinstance(m[1], str) and m[1].startswith('BareScript: ')]
+    for m in own:
+        if 'failed with error: Exceeded maximum script statements' in m[1]:
+            raise Violation('the budget abort is logged as a failed call: %r (an observable effect the unlimited run does not have)' % (m[1],), d, 'abort-logged-as-failure')
+    logs[:] = [m for m in logs if m not in own]
+
+
+def run_impl_model(model, files_text, limit, globals0, debug=False, d=None):
     logs = []
     g = copy.deepcopy(globals0)
     opts = {'globals': g, 'logFn': _capped_log(logs), 'maxStatements': limit, 'fetchFn': lambda req: files_text.get(req['url'])}
+    if debug:
+        opts['debug'] = True
     try:
         res = ('ok', impl.bs.execute_script(model, opts))
     except CaseTimeout:
@@ -198,6 +210,8 @@ def run_impl_model(model, files_text, limit, globals0):
         res = ('recursion', None)
     except Exception as e:  # pylint: disable=broad-except
         res = ('host-exception', '%s: %s' % (type(e).__name__, e))
+    if debug:
+        _debug_split(logs, d or {})
     return res, logs, opts.get('statementCount'), g
 
 
@@ -281,7 +295,7 @@ def check_vm_program(model, files, seed):
     for limit in [0] + limits_for(rnd, n, terminates):
         if limit == 0 and not terminates:
             continue
-        a = run_impl_model(model, files_text, limit, g0)
+        a = run_impl_model(model, files_text, limit, g0, debug=seed % 3 == 0, d=dict(d, limit=limit, debug=True))
         b = run_ref_model(model, files, limit, g0)
         if a[0][0] == 'recursion' or b[0][0] == 'recursion':
             continue
